@@ -83,6 +83,23 @@ for D in (1, 2, 3):
         Check('I1_deref', ['C02'], params=['self'], fn_re=E(ITn(1)) + r'::operator\*\(\) const',
               wrapper=('double*', 'IT<1> const* self', 'return &**self;'), cxx={'self': ITrec(1)}, group='iter', mode='exact', requires=['1'],
               ensures=[('*it is the element at the current position', 'RET == self->ptr_')], assigns=[])
+    # it[n] is *(it + n)   (whole closure: the random-access mix-in operator+, operator+=, operator*)
+    if D > 1:
+        Check('I%d_index' % D, ['C02'], params=['ret', 'self', 'n'], fn='w_I%d_index' % D,
+              wrapper=('void', 'MS<%d>* ret, IT<%d> const* self, multi::index n' % (D-1, D), 'new(ret) MS<%d>((*self)[n]);' % (D-1)),
+              cxx={'self': ITrec(D), 'ret': MSUB(D-1)}, group='iter', mode='uf', ghosts=G, requires=[INV('self', 'g_p'), 'INR(n)'],
+              lemmas=['LEMMA_DIST(g_p, n, self->stride_)', 'LEMMA_COMM(self->stride_, n)'],
+              ensures=[('it[n] is the sub-view at position p+n with the carried sub-layout',
+                        'ret->base_ == g_b0 + MUL(g_p + n, self->stride_) && ' + ' && '.join('%s == %s' % (lp('ret', k, x), lp('self', k, x, 'ptr_.layout_.')) for k in range(D-1) for x in ('stride_', 'offset_', 'nelems_'))),
+                       ('the iterator itself is not moved', '%s == OLD(%s) && %s' % (B('self'), B('self'), unchanged('self')))],
+              covers=['n < 0', 'n > 1'], assigns=['*ret'])
+    else:
+        Check('I1_index', ['C02'], params=['self', 'n'], fn='w_I1_index',
+              wrapper=('double*', 'IT<1> const* self, multi::index n', 'return &(*self)[n];'), cxx={'self': ITrec(1)}, group='iter', mode='uf', ghosts=G,
+              requires=[INV('self', 'g_p'), 'INR(n)'], lemmas=['LEMMA_DIST(g_p, n, self->stride_)', 'LEMMA_COMM(self->stride_, n)'],
+              ensures=[('it[n] is the element at position p+n', 'RET == g_b0 + MUL(g_p + n, self->stride_)'),
+                       ('the iterator itself is not moved', '%s == OLD(%s) && %s' % (B('self'), B('self'), unchanged('self')))],
+              covers=['n < 0', 'n > 1'], assigns=[])
     # begin / end of a view
     for zb in (True, False):
         suf = '' if zb else '_b'; props = ['C02'] if zb else ['C19']
